@@ -247,6 +247,8 @@ def focused(tier):
                                route=matrix([[0.0, 1.0], [0.0, 0.0]]))}, K=2, T=16.0, D=5 if tier == "quick" else 8, features=["ps"]))
     out.append(cfg("ps cap=1 feedback", fam, [node(c=1, ps=True)],
                    {"A": klass([[0.5, 1.0]], [[1.0, 0.5]], route=matrix([[0.5]]))}, K=3, T=8.0, D=4 if tier == "quick" else 7, features=["ps"]))
+    out.append(single("ps cap=2 arrivals at t=0", fam, c=2, K=K + 1, arr=[0.0, 0.5, 1.0], srv=[2.0, 1.0, 0.5], nodekw={"ps": True}, D=5 if tier == "quick" else 8, features=["ps", "zero"]))
+    out.append(single("ps cap=1 arrivals at t=0", fam, c=1, K=K, arr=[0.0, 0.5], srv=[1.0, 0.5], nodekw={"ps": True}, features=["ps", "zero"]))
     # two priority classes at a limited PS node (not excluded by the quantifier)
     out.append(cfg("ps cap=2 two priority classes", fam, [node(c=2, ps=True)],
                    {"A": klass([ARR], [REQ], prio=1), "B": klass([[1.0, 2.0]], [REQ], prio=0)}, K=2, features=["ps", "priorities"]))
